@@ -239,7 +239,7 @@ def run(ctx, only_fields=None, rule_prefix="R14"):
             config.append((a, fn))
             if only_fields is None:
                 ctx.ok(R1, "%s.%s#configuration" % (a, fn), "", "no write or mutable borrow reachable from format (%d reads)" % len(us))
-    ctx.floor(R1, "scratch fields discovered", len(scratch), 7)
+    ctx.floor(R1, "scratch fields discovered", len(scratch), 5)
     # ---- the entry body: where the per-call writer borrows the whole state
     root_body = None
     u_pos = None
